@@ -633,7 +633,8 @@ impl Value {
         let s = hexadecimal.as_inner();
         // A literal without any digit (`0x_`) denotes nothing.
         // Sub-byte integers have a byte width of zero and would otherwise slip through.
-        if s.is_empty() || s.len() % 2 != 0 || s.len() != expected_byte_len * 2 {
+        // Compare byte counts: twice the length of a huge array type overflows `usize`.
+        if s.is_empty() || s.len() % 2 != 0 || s.len() / 2 != expected_byte_len {
             return Err(Error::ExpressionUnexpectedType(ty.clone()));
         }
         let bytes = Vec::<u8>::from_hex(s).expect("valid chars and valid length");
